@@ -10,7 +10,7 @@ Inductive accst := ANone | AOpen | AClosed.
 Record lst := { l_reg : bool; l_closed : bool; l_acc : accst }.
 Record cst := { c_closed : bool; c_tcloses : nat; c_inactive : nat }.
 
-Inductive sret := RetServerClosed | RetDup | RetAcceptErr.
+Inductive sret := RetServerClosed | RetDup | RetAcceptErr | RetListenErr.
 Inductive sypc := SyListen | SyAccept | SyServe | SyWait (c : nat) | SyDone (r : sret).
 Inductive chpc := ChActive | ChLoop | ChRead | ChDone.
 Inductive shpc := ShNot | ShRange | ShCloseL (rem : list nat) | ShCloseAll | ShCloseCh (rem : list nat) | ShDone.
@@ -21,7 +21,9 @@ Inductive bthread :=
 | BChan (c : nat) (pc : chpc) (activated : bool)
 | BConnect (pc : copc)
 | BListen (l : nat) (started : bool)       (* Listen(url) then Async(): registers, then spawns the Sync thread *)
-| BLClose (l : nat) (done : bool).         (* a user calling Listener.Close *)
+| BLClose (l : nat) (done : bool)          (* a user calling Listener.Close *)
+| BRetry (l : nat) (started : bool).       (* a user calling Sync/Async AGAIN on a Listener it already has (e.g. after the
+                                              transport factory's Listen failed): spawns another Sync thread *)
 
 (* sh: how far the (single) Shutdown call has got; ShNot = not called *)
 Record bst := { bctx : bool; sh : shpc; lsts : list lst; chans : list cst; holder : list nat; bthreads : list bthread }.
@@ -66,7 +68,8 @@ Definition reg_listeners (s : bst) : list nat :=
   filter (fun l => l_reg (get_l s l)) (seq 0 (length (lsts s))).
 Definition ctx_done_of (s : bst) (c : nat) : bool := orb (bctx s) (c_closed (get_c s c)).
 
-(* `conn`: at an accept step, whether a connection arrives now *)
+(* `conn`: the environment's choice at this step - at an accept step, whether a connection arrives now; at the
+   step that creates the acceptor, whether the transport factory's Listen FAILS (address in use, ...) *)
 Definition bstep (s : bst) (i : nat) (conn : bool) : option bst :=
   match nth_error (bthreads s) i with
   | None => None
@@ -76,6 +79,11 @@ Definition bstep (s : bst) (i : nat) (conn : bool) : option bst :=
            Some (spawn (set_t (set_l s l {| l_reg := true; l_closed := l_closed x; l_acc := l_acc x |}) i (BListen l true))
                        (BSync l SyListen))
   | Some (BLClose l done) => if done then None else Some (set_t (close_listener s l) i (BLClose l true))
+  | Some (BRetry l started) =>
+      (* possible once Listen(url) has produced the Listener (it is registered, or was and has been closed) *)
+      if started then None
+      else if orb (l_reg (get_l s l)) (l_closed (get_l s l))
+           then Some (spawn (set_t s i (BRetry l true)) (BSync l SyListen)) else None
   | Some (BSync l pc) =>
       match pc with
       | SyListen =>
@@ -83,6 +91,8 @@ Definition bstep (s : bst) (i : nat) (conn : bool) : option bst :=
           match l_acc x with
           | ANone =>
               if orb (l_closed x) (bctx s) then Some (set_t s i (BSync l (SyDone RetServerClosed)))
+              else if conn then Some (set_t s i (BSync l (SyDone RetListenErr)))   (* factory failed: nothing bound, the
+                                                                                       listener stays registered and can be retried *)
               else Some (set_t (set_l s l {| l_reg := l_reg x; l_closed := l_closed x; l_acc := AOpen |}) i (BSync l SyAccept))
           | _ => Some (set_t s i (BSync l (SyDone RetDup)))
           end
